@@ -89,7 +89,8 @@ def run_unit(name, do_vacuity=True, known=()):
         return name, None, None, 'internal: %s\n%s' % (e, traceback.format_exc())
 
 
-REPRO_OF = {'e1_': ['C02', 'C11'], 'e3_': ['C12'], 'e4_': ['C16'], 'e5_': ['C08'], 'e6_': ['C08', 'C07'], 'e7_': ['C08', 'C01', 'C07']}
+REPRO_OF = {'e1_': ['C02', 'C11'], 'e3_': ['C12'], 'e4_': ['C16'], 'e5_': ['C08'], 'e6_': ['C08', 'C07'], 'e7_': ['C08', 'C01', 'C07'],
+            'e8_': ['C07', 'C08'], 'e9_': ['C01', 'C05']}
 
 
 def run_reproductions(pid):
@@ -237,15 +238,15 @@ def main():
             import cex as cexmod
             for name in P['units']:
                 r, vac, err = unit_results[name]
-                if not (err or (r is not None and r.undecided)):
+                if not (err or (r is not None and r.undecided)) and tier != 'thorough':
                     continue
                 for g in cexmod.groups_for_unit(name):
                     res = cexmod.run_group(g)
                     gname = os.path.basename(g['file'])
                     bounded.append(dict(harness='cex/' + gname, bound='small input grid, see the file', status='failed' if res['found'] else 'no failing input',
-                                        reason='unit %s undecided by Verus' % name))
+                                        reason=('unit %s undecided by Verus' % name) if (err or (r is not None and r.undecided)) else 'thorough tier: executable contract clauses on the real crate'))
                     if res['found']:
-                        fl = verusrun.Failure('bounded.%s' % gname[:-3], 'bounded', 'bounded stand-in found a failing input on the real code (unit %s is undecided by Verus)' % name,
+                        fl = verusrun.Failure('bounded.%s' % gname[:-3], 'bounded', 'bounded stand-in found a failing input on the real code (unit %s)' % name,
                                               '', res['text'], gname)
                         bounded_found.append(fl)
                         violations.append((fl, None, True))
